@@ -587,6 +587,7 @@ func runC18(c *report.Ctx) {
 	ruleFailedBatchNotFinished(c)
 	ruleSoleWriter(c)
 	_ = sort.Strings
+	ruleNoMemoryTipUnderUpdate(c)
 }
 
 // closureArg returns the function literal passed as argument #i of call.
